@@ -2272,9 +2272,8 @@ fn eval_int_binop(
                 }
             }
         }
-        BinaryOperatorKind::Modulo => match lhs_num.checked_rem_euclid(rhs_num) {
-            Some(num) => Value::new(Value_::Int(num)),
-            None => {
+        BinaryOperatorKind::Modulo => {
+            if rhs_num == 0 {
                 return Err((
                     RestoreValues(vec![lhs_value.clone(), rhs_value.clone()]),
                     EvalError::Exception(ExceptionInfo {
@@ -2286,7 +2285,12 @@ fn eval_int_binop(
                     }),
                 ));
             }
-        },
+
+            // The Euclidean remainder is always representable. Use the
+            // wrapping form so i64::MIN % -1 is 0 rather than being
+            // misreported as a division by zero.
+            Value::new(Value_::Int(lhs_num.wrapping_rem_euclid(rhs_num)))
+        }
         BinaryOperatorKind::Exponent => {
             if rhs_num < 0 {
                 return Err((
